@@ -44,6 +44,11 @@ def run(tier, replay=None):
                           "(crossing visible through request tags echoed in replies; timeliness: a reply within T of being asked must be accepted however long the call queued); "
                           "a gate around the real driver holds call A between the transport's return and the decoding of its bytes while call B (same / other client, all 9 path pairs, bind port 0 and fixed) completes 1-4 times - each result must interpret its own reply; the scripts again in a -race build together with GetDevices while replies arrive and Listen being shut down. distinct = scenarios" % n)
     v.coverage["checker_cmd"] = "tlc MC_Transport (c08, q, XF_*); tlc MC_Discovery; tlc Trace_Transport; go build -race"
+    # optional strengthening (never a verdict about the code): the mutual-exclusion core of Transport for ANY number of calls
+    pr = vflib.tlaps("TransportProofs")
+    v.coverage["tlaps"] = {"module": "spec/proofs/TransportProofs.tla", "what": "inductive invariant MutexInv of spec/Transport.tla (one guard holder, held exactly between Lock and Finish, sockets only with the holder) => at most one socket on the fixed port, nothing held after Finish, the bind in Send never fails; unbounded in calls / timeout / plans / strays",
+                           "obligations": pr[0] if pr else None, "proved": pr[1] if pr else None, "wall_s": pr[2] if pr else None,
+                           "status": "all proved" if pr and pr[0] == pr[1] else "not discharged in this run (the claim then rests on the TLC bound)"}
     return v.finish()
 
 
